@@ -484,6 +484,13 @@ YHAND = [
     (b"k: &x\n  j: 1\na: *x\n", "anchor"),
     (b"- &x a\n- *x\n", "anchor"),
     (b"k: &x {j: 1}\na: {<<: *x, i: 2}\n", "merge"),
+    # an anchor nested inside another anchored container, aliases to both: a write through the outer alias makes
+    # the expanded copy (which carries its own copy of the inner anchor mark) differ from the original
+    (b"a: &x {p: &y 1}\nb: *x\nc: *y\n", "nested-anchor"),
+    (b"a: &x\n  p: &y 1\n  q: *y\nb: *x\nc: *y\n", "nested-anchor"),
+    (b"- &x {p: &y [1]}\n- *x\n- *y\n", "nested-anchor"),
+    (b"l:\n  - &x {p: &y 1}\n  - *x\nc: *y\n", "nested-anchor"),
+    (b"a: &x {p: &y {r: &z 1}}\nb: *x\nc: *y\nd: *z\n", "nested-anchor"),
     (b"a: |\n  l1\n  l2\nb: >-\n  f1\n  f2\n# c\nc: 'x: y'\n", "block-scalar"),
     (b"k: |+\n  a\n\nj: |-\n  a\na: >\n  x\n  y\n\n  z\n", "block-scalar"),
     (b"- |\n  a\n  b\n- >-\n  c\n  d\n", "block-scalar"),
